@@ -309,10 +309,43 @@ class Check:
         return status
 
 
+# forced-schedule / boundary scenarios that once reproduced a genuine defect on the real code (known_findings.json, fixed entries):
+# in the thorough tier they are run again on the CURRENT tree; a scenario that reproduces is reported as a violation of its property
+NATIVE_REGRESSIONS = {
+    "C06": [("lost_wakeup_replay.py", {}, "C06.produce.no_lost_wakeup.flag_before_drain")],
+    "C10": [("orphan_race_replay.py", {}, "C10.state.check_then_put_atomic"), ("replay_orphan_replay.py", {}, "C10.state.history_links_registered"),
+            ("replay_orphan_replay.py", {"paginated": True}, "C10.state.history_links_registered")],
+    "C02": [("track_race_replay.py", {}, "C02.state.lock_discipline.operations")],
+    "C17": [("track_race_replay.py", {}, "C17.state.lock_discipline.operations"), ("logger_replay.py", {}, "C17.lemma.boundary")],
+    "C09": [("branch_publish_replay.py", {"transition": "complete"}, "C09.models.publish_order.complete"), ("branch_publish_replay.py", {"transition": "fail"}, "C09.models.publish_order.fail"),
+            ("percentage_rounding_replay.py", {}, "C09.counters.exact_arithmetic.should_continue")],
+}
+
+
+def native_regressions(chk):
+    for script, payload, obligation in NATIVE_REGRESSIONS.get(chk.prop, ()):
+        name = f"{chk.prop}.native_regression.{script[:-3]}" + ("." + "_".join(f"{k}_{v}" for k, v in payload.items()) if payload else "")
+        ob = chk.obligation(name, f"thorough tier cross-check (NOT a proof, bounded: one forced schedule): the scenario that once reproduced the defect behind {obligation} does not reproduce on the current tree")
+        ob.kind = "bounded"
+        ob.vcs += 1
+        try:
+            r = native(script, payload, timeout=180)
+        except Exception as e:  # noqa: BLE001
+            chk.fault(f"native regression {script} could not run: {e!r}")
+            continue
+        if r.get("confirmed"):
+            ob.refuted.append({"inputs": {"script": script, "payload": payload}, "model": "", "replay_confirmed": True, "replay_output": r})
+        else:
+            ob.discharged += 1
+            chk.validated += 1
+
+
 def run_check(prop, fn, tier, seed):
     chk = Check(prop, tier, seed)
     try:
         fn(chk)
+        if tier == "thorough":
+            native_regressions(chk)
     except Unsupported as e:
         chk.undecide(f"unsupported construct: {e}")
         traceback.print_exc()
